@@ -120,7 +120,7 @@ def _overlapping_numeric_union(shape):
     """a Union with a restricted number type and another numeric member accepts some numbers through two members
     (PositiveInt accepts 1.0 and returns 1): which one wins depends on the spelling, an ambiguity of the hint itself"""
     subs = [x for x in shape[1:] if isinstance(x, list) and x and isinstance(x[0], str)]
-    if shape[0] == "dc":
+    if shape[0] in ("dc", "td"):
         subs = [f[1] for f in shape[2]]
     if shape[0] == "union":
         num = [m[0] for m in shape[1:] if m[0] in ("int", "float", "posint", "nnfloat", "unit")]
